@@ -376,6 +376,13 @@ func genPurity(out string, root, helpers *pkgFiles) {
 			if !ok || len(as.Lhs) != 1 || len(as.Rhs) != 1 {
 				continue
 			}
+			// `*n = html.Node{}`: the whole struct is overwritten by its zero value — every field of golang.org/x/net/html.Node
+			if _, isStar := as.Lhs[0].(*ast.StarExpr); isStar {
+				if cl, isLit := as.Rhs[0].(*ast.CompositeLit); isLit && len(cl.Elts) == 0 && exprString(cl.Type) == "html.Node" {
+					cleared = append(cleared, "Attr", "Data", "DataAtom", "FirstChild", "LastChild", "Namespace", "NextSibling", "Parent", "PrevSibling", "Type")
+				}
+				continue
+			}
 			sel, ok := as.Lhs[0].(*ast.SelectorExpr)
 			if !ok {
 				continue
@@ -424,23 +431,46 @@ func genPurity(out string, root, helpers *pkgFiles) {
 				if f == "slices.Clone" {
 					fresh++
 				}
-				// a same-package helper whose single statement returns a fresh copy of its (only) parameter
+				// a same-package helper every return of which gives nil or a fresh copy of its (only) parameter
 				if id, isId := ce.Fun.(*ast.Ident); isId && len(ce.Args) == 1 {
-					if h := helpers.fn(id.Name); h != nil && h.Body != nil && len(h.Body.List) == 1 && h.Type.Params != nil && len(h.Type.Params.List) == 1 && len(h.Type.Params.List[0].Names) == 1 {
+					if h := helpers.fn(id.Name); h != nil && h.Body != nil && h.Type.Params != nil && len(h.Type.Params.List) == 1 && len(h.Type.Params.List[0].Names) == 1 {
 						pn := h.Type.Params.List[0].Names[0].Name
-						if rs, isRet := h.Body.List[0].(*ast.ReturnStmt); isRet && len(rs.Results) == 1 {
-							if rc, isCall := rs.Results[0].(*ast.CallExpr); isCall {
-								rf := exprString(rc.Fun)
-								if rf == "append" && len(rc.Args) == 2 && rc.Ellipsis.IsValid() && exprString(rc.Args[1]) == pn {
-									first := types.ExprString(rc.Args[0])
-									if first == "[]html.Attribute(nil)" || first == "[]html.Attribute{}" || strings.HasPrefix(first, "make(") {
-										fresh++
-									}
-								}
-								if rf == "slices.Clone" && len(rc.Args) == 1 && exprString(rc.Args[0]) == pn {
-									fresh++
-								}
+						copies, other := 0, 0
+						ast.Inspect(h.Body, func(x ast.Node) bool {
+							rs, isRet := x.(*ast.ReturnStmt)
+							if !isRet {
+								return true
 							}
+							if len(rs.Results) != 1 {
+								other++
+								return true
+							}
+							if exprString(rs.Results[0]) == "nil" {
+								return true
+							}
+							rc, isCall := rs.Results[0].(*ast.CallExpr)
+							if !isCall {
+								other++
+								return true
+							}
+							rf := exprString(rc.Fun)
+							first := ""
+							if len(rc.Args) > 0 {
+								first = types.ExprString(rc.Args[0])
+							}
+							switch {
+							case rf == "append" && len(rc.Args) == 2 && rc.Ellipsis.IsValid() && exprString(rc.Args[1]) == pn &&
+								(first == "[]html.Attribute(nil)" || first == "[]html.Attribute{}" || strings.HasPrefix(first, "make(")):
+								copies++
+							case rf == "slices.Clone" && len(rc.Args) == 1 && exprString(rc.Args[0]) == pn:
+								copies++
+							default:
+								other++
+							}
+							return true
+						})
+						if copies > 0 && other == 0 {
+							fresh++
 						}
 					}
 				}
